@@ -214,11 +214,11 @@ def estimate_alpha(values, rf):
     # apply rotation
     sim = opmatrix.matrix_prod(rotation_matrix, equilibrium.states, inplace=False)
 
-    # longitudinal phase coefficient, rescaled between -1 and +1
-    absZ = np.mod(np.real(sim.flat[2]) + 1, 2) - 1
+    # longitudinal component after the rotation (in [-1, 1] up to rounding)
+    absZ = np.clip(np.real(sim.flat[2]), -1, 1)
 
     # resulting alpha angle in degree
-    alpha = np.mod(np.arccos(absZ) / np.pi * 180 + 180, 360) - 180
+    alpha = np.arccos(absZ) / np.pi * 180
     return alpha
 
 
